@@ -147,6 +147,7 @@ class Ctx:
         hyps = [h for h in hyps if not (isinstance(h, bool) and h)]
         if any(isinstance(h, bool) and not h for h in hyps):
             return 'unsat', 'trivial', 0.0, None, ''
+        hyps0 = list(hyps)
         neg = z3.Not(goal) if not isinstance(goal, bool) else z3.BoolVal(not goal)
         lem = axioms.instantiate(list(hyps) + [neg] + list(extra_terms), level='basic' if algebra in (True, 'basic') else 'all')
         if algebra in (True, 'full'):
@@ -157,7 +158,10 @@ class Ctx:
         # portfolio inside z3: default arithmetic first, then the legacy arithmetic solver (much stronger on the non-linear
         # real identities with uninterpreted functions that occur here)
         budget = timeout or Z3_TIMEOUT_MS
-        for cfg, tmo in (({}, min(budget, 6000)), ({'arith.solver': 2}, budget)):
+        order = (({}, min(budget, 6000)), ({'arith.solver': 2}, budget))
+        if _nonlinear(list(hyps) + lem + [neg]):
+            order = (({'arith.solver': 2}, budget), ({}, min(budget, 6000)))       # products of unknowns: the legacy arithmetic solver first
+        for cfg, tmo in order:
             s = z3.Solver()
             s.set('timeout', tmo)
             s.set('random_seed', 0)
@@ -172,6 +176,20 @@ class Ctx:
         dt = time.time() - t
         self.solver_time += dt
         smt2 = ''
+        if r == z3.unknown and not algebra and not getattr(self, '_in_alt', False):
+            # before the external solvers: the same obligation over the pure-arithmetic abstraction (special functions replaced by
+            # constants, basic lemmas only).  It has fewer hypotheses, so 'unsat' there is conclusive.
+            self._in_alt = True
+            try:
+                st_a, who_a, dt_a, _, _ = self._check(hyps0, goal, extra_terms, timeout=5000, algebra=True)
+            except z3.Z3Exception:
+                st_a, who_a, dt_a = 'unknown', '', 0
+            finally:
+                self._in_alt = False
+            if st_a == 'unsat':
+                return 'unsat', who_a, dt + dt_a, None, ''
+        if r == z3.unknown and getattr(self, '_in_alt', False):
+            return 'unknown', 'z3', dt, None, ''
         if r == z3.unknown:
             smt2 = s.to_smt2()
             r2, dt2, who = run_external(smt2)
@@ -439,6 +457,23 @@ class Ctx:
 
     def note(self, text):
         self.notes.append(text)
+
+
+def _nonlinear(ts):
+    seen, st = set(), [t for t in ts if isz(t)]
+    while st:
+        x = st.pop()
+        if x.get_id() in seen:
+            continue
+        seen.add(x.get_id())
+        if z3.is_app(x) and x.decl().kind() == z3.Z3_OP_MUL:
+            if sum(1 for c in x.children() if not (z3.is_int_value(c) or z3.is_rational_value(c))) >= 2:
+                return True
+        if z3.is_quantifier(x):
+            st.append(x.body())
+        else:
+            st.extend(x.children())
+    return False
 
 
 def _symbols(ts):
